@@ -84,15 +84,15 @@ theorem chainExists_iff {t : Table} {c : Chain} : chainExists t c = true ↔ ∃
 /-! ### the primitive commands when their references exist -/
 
 theorem checkRefs_jump (k : Kern) (t : Table) (r : PRule) (c : Chain) (ht : r.tgt = .jump c) (hs : r.setRefs = [])
-    (he : chainExists t c = true) : checkRefs k t r = none := by
-  simp [checkRefs, ht, hs, he]
+    (he : chainExists t c = true) (hp : r.portsOK = true) : checkRefs k t r = none := by
+  simp [checkRefs, ht, hs, he, hp]
 
-theorem checkRefs_plain (k : Kern) (t : Table) (r : PRule) (hs : r.setRefs = []) (ht : ∀ c, r.tgt ≠ .jump c) :
-    checkRefs k t r = none := by
+theorem checkRefs_plain (k : Kern) (t : Table) (r : PRule) (hs : r.setRefs = []) (ht : ∀ c, r.tgt ≠ .jump c)
+    (hp : r.portsOK = true) : checkRefs k t r = none := by
   unfold checkRefs
   cases hr : r.tgt with
   | jump c => exact absurd hr (ht c)
-  | _ => simp [hs]
+  | _ => simp [hs, hp]
 
 theorem ensureRule_ok (k : Kern) (prepend : Bool) (c : Chain) (r : PRule) (rs : List PRule)
     (hc : checkRefs k k.tbl r = none) (hg : Tbl.get k.tbl c = some rs) :
@@ -138,6 +138,8 @@ theorem baseRules_shape : ∀ cr ∈ glxBaseRules, cr.1.isBuiltin = true ∧ cr.
     (cr.2.tgt = .jump .glxIngress ∨ cr.2.tgt = .jump .glxEgress) := by
   decide
 
+theorem baseRules_ports : ∀ cr ∈ glxBaseRules, cr.2.portsOK = true := by decide
+
 theorem ensureBase_step (k0 k : Kern) (cr : Chain × PRule) (hcr : cr ∈ glxBaseRules)
     (hrel : BaseRel k0.tbl k.tbl) (hb : ∀ b, b.isBuiltin = true → chainExists k0.tbl b = true)
     (hg : chainExists k0.tbl .glxIngress = true ∧ chainExists k0.tbl .glxEgress = true) :
@@ -156,8 +158,8 @@ theorem ensureBase_step (k0 k : Kern) (cr : Chain × PRule) (hcr : cr ∈ glxBas
     · exact hg.2
   have hc : checkRefs k k.tbl cr.2 = none := by
     rcases htg with h | h
-    · exact checkRefs_jump k k.tbl cr.2 _ h hsr (hex _ (Or.inl rfl))
-    · exact checkRefs_jump k k.tbl cr.2 _ h hsr (hex _ (Or.inr rfl))
+    · exact checkRefs_jump k k.tbl cr.2 _ h hsr (hex _ (Or.inl rfl)) (baseRules_ports cr hcr)
+    · exact checkRefs_jump k k.tbl cr.2 _ h hsr (hex _ (Or.inr rfl)) (baseRules_ports cr hcr)
   obtain ⟨e1, e2, e3⟩ := ensureRule_ok k true cr.1 cr.2 rs hc hrs
   refine ⟨e1, e2, ?_, ?_⟩
   · rw [e3]
@@ -279,8 +281,8 @@ theorem ensureBasic_spec (k : Kern) (hk : (Tbl.keys k.tbl).Nodup)
                 · exact hx1
                 · exact x2
               rcases ytg with h | h
-              · exact checkRefs_jump _ _ _ _ h ysr (hex _ (Or.inl rfl))
-              · exact checkRefs_jump _ _ _ _ h ysr (hex _ (Or.inr rfl))
+              · exact checkRefs_jump _ _ _ _ h ysr (hex _ (Or.inl rfl)) (baseRules_ports y (hly y (List.mem_cons_self ..)))
+              · exact checkRefs_jump _ _ _ _ h ysr (hex _ (Or.inr rfl)) (baseRules_ports y (hly y (List.mem_cons_self ..)))
             obtain ⟨_, _, t3⟩ := ensureRule_ok a.1 true y.1 y.2 rsy hcy hrsy
             simp only
             rw [t3]
@@ -327,7 +329,8 @@ theorem ensureBasic_spec (k : Kern) (hk : (Tbl.keys k.tbl).Nodup)
 /-! ### the pod-chain batch -/
 
 theorem apps_ok' (k : Kern) (c : Chain) (rs : List PRule) (t : Table) (hc : chainExists t c = true)
-    (hrs : ∀ r ∈ rs, r.setRefs = [] ∧ ∀ c', r.tgt = .jump c' → chainExists t c' = true) (hn : (Tbl.keys t).Nodup) :
+    (hrs : ∀ r ∈ rs, r.setRefs = [] ∧ ∀ c', r.tgt = .jump c' → chainExists t c' = true) (hn : (Tbl.keys t).Nodup)
+    (hpo : ∀ r ∈ rs, r.portsOK = true) :
     ∃ t', (rs.map (Cmd.app c)).foldlM (applyCmd k) t = .ok t' ∧ (Tbl.keys t').Nodup ∧
       ∀ c', Tbl.get t' c' = if c' = c then (Tbl.get t c).map (· ++ rs) else Tbl.get t c' := by
   induction rs generalizing t with
@@ -339,16 +342,16 @@ theorem apps_ok' (k : Kern) (c : Chain) (rs : List PRule) (t : Table) (hc : chai
     obtain ⟨hsr, htg⟩ := hrs r (List.mem_cons_self ..)
     have hcr : checkRefs k t r = none := by
       cases hr : r.tgt with
-      | jump c' => exact checkRefs_jump k t r c' hr hsr (htg c' hr)
-      | accept => exact checkRefs_plain k t r hsr (by intro c' e; rw [hr] at e; cases e)
-      | drop => exact checkRefs_plain k t r hsr (by intro c' e; rw [hr] at e; cases e)
-      | ret => exact checkRefs_plain k t r hsr (by intro c' e; rw [hr] at e; cases e)
+      | jump c' => exact checkRefs_jump k t r c' hr hsr (htg c' hr) (hpo r (List.mem_cons_self ..))
+      | accept => exact checkRefs_plain k t r hsr (by intro c' e; rw [hr] at e; cases e) (hpo r (List.mem_cons_self ..))
+      | drop => exact checkRefs_plain k t r hsr (by intro c' e; rw [hr] at e; cases e) (hpo r (List.mem_cons_self ..))
+      | ret => exact checkRefs_plain k t r hsr (by intro c' e; rw [hr] at e; cases e) (hpo r (List.mem_cons_self ..))
     have hstep : applyCmd k t (.app c r) = .ok (setChain t c (old ++ [r])) := by
       simp [applyCmd, hcr, hold]
     obtain ⟨t', h1, h2, h3⟩ := ih (setChain t c (old ++ [r])) (by rw [chainExists_setChain']; simp)
       (fun x hx => ⟨(hrs x (List.mem_cons_of_mem _ hx)).1, fun c' hc' => by
         rw [chainExists_setChain', (hrs x (List.mem_cons_of_mem _ hx)).2 c' hc']; simp⟩)
-      (nodup_setChain _ _ _ hn)
+      (nodup_setChain _ _ _ hn) (fun x hx => hpo x (List.mem_cons_of_mem _ hx))
     refine ⟨t', ?_, h2, ?_⟩
     · simp only [List.map_cons, List.foldlM_cons, hstep]; exact h1
     · intro c'
@@ -361,12 +364,13 @@ theorem apps_ok' (k : Kern) (c : Chain) (rs : List PRule) (t : Table) (hc : chai
     targets of the rules exist, and then the chain holds exactly the rules; nothing else changes -/
 theorem podBatch_spec (k : Kern) (pc : Chain) (rules : List PRule) (hb : pc.isBuiltin = false)
     (hn : (Tbl.keys k.tbl).Nodup)
-    (hrs : ∀ r ∈ rules, r.setRefs = [] ∧ ∀ c', r.tgt = .jump c' → chainExists k.tbl c' = true) :
+    (hrs : ∀ r ∈ rules, r.setRefs = [] ∧ ∀ c', r.tgt = .jump c' → chainExists k.tbl c' = true)
+    (hpo : ∀ r ∈ rules, r.portsOK = true) :
     ∃ t2, restore k (Cmd.decl pc :: rules.map (Cmd.app pc)) = .ok t2 ∧ (Tbl.keys t2).Nodup ∧
       ∀ c', Tbl.get t2 c' = if c' = pc then some rules else Tbl.get k.tbl c' := by
   obtain ⟨t2, h1, h2, h3⟩ := apps_ok' k pc rules (setChain k.tbl pc []) (by rw [chainExists_setChain']; simp)
     (fun r hr => ⟨(hrs r hr).1, fun c' hc' => by rw [chainExists_setChain', (hrs r hr).2 c' hc']; simp⟩)
-    (nodup_setChain _ _ _ hn)
+    (nodup_setChain _ _ _ hn) hpo
   refine ⟨t2, ?_, h2, ?_⟩
   · unfold restore
     simp only [List.foldlM_cons, applyCmd_decl k k.tbl pc hb]
@@ -376,6 +380,24 @@ theorem podBatch_spec (k : Kern) (pc : Chain) (rules : List PRule) (hb : pc.isBu
     by_cases e : c' = pc
     · subst e; rw [get_setChain]; simp
     · simp only [e, if_false]; rw [get_setChain]; simp [e]
+
+theorem podChain_ports (ps : List NetPol) (q : Pod) : ∀ r ∈ podChain ps q, r.portsOK = true := by
+  intro r hr
+  simp only [podChain, List.mem_cons, List.mem_append, List.mem_map, List.mem_filter] at hr
+  rcases hr with rfl | ⟨p, _, rfl⟩ | rfl | hr
+  · rfl
+  · rfl
+  · rfl
+  · cases hr
+
+theorem hookRule_ports {d : Bool} {q : Pod} {r : PRule} (h : hookRule d q = [r]) : r.portsOK = true := by
+  unfold hookRule at h
+  cases hip : q.ip with
+  | none => simp [hip] at h
+  | some a =>
+    simp only [hip, List.cons.injEq, and_true] at h
+    subst h
+    cases d <;> rfl
 
 theorem podChain_rules (ps : List NetPol) (q : Pod) :
     ∀ r ∈ podChain ps q, r.setRefs = [] ∧ ∀ c', r.tgt = .jump c' → ∃ p ∈ ps, c' = .plcy p.hash := by
@@ -614,7 +636,7 @@ theorem deleteHook_spec (k : Kern) (d : Bool) (c : Chain) (q : Pod) (L : List Po
       have hj : r.jumpsTo (.pod q.hash) = true := by simpa using List.find?_some hf
       obtain ⟨hrq, hex⟩ := hown r (hrs ▸ hr) hj
       have hc : checkRefs k k.tbl r = none :=
-        checkRefs_jump k k.tbl r _ (hookRule_tgt hrq).1 (hookRule_tgt hrq).2.1 hex
+        checkRefs_jump k k.tbl r _ (hookRule_tgt hrq).1 (hookRule_tgt hrq).2.1 hex (hookRule_ports hrq)
       obtain ⟨e1, e2, e3⟩ := deleteRule_ok k c r hc
       rw [hg] at e3
       simp only at e3
@@ -676,6 +698,7 @@ theorem hookStep_spec (k : Kern) (sel d : Bool) (c : Chain) (q : Pod) (h : PRule
     (∃ rs', Tbl.get (hookStep k sel c h).1.tbl c = some rs' ∧ rs'.Nodup ∧
       ∀ x, x ∈ rs' ↔ (hookRule d q = [x] ∧ sel = true) ∨ (hookRule d q ≠ [x] ∧ x ∈ rs)) := by
   have hc : checkRefs k k.tbl h = none := checkRefs_jump k k.tbl h _ (hookRule_tgt hh).1 (hookRule_tgt hh).2.1 hex
+    (hookRule_ports hh)
   unfold hookStep
   cases sel with
   | true =>
@@ -755,7 +778,7 @@ theorem syncPod_step (k : Kern) (ps : List NetPol) (L : List Pod) (q : Pod) (inv
         refine ⟨h1, fun c' hc' => ?_⟩
         obtain ⟨p, hp, rfl⟩ := h2 c' hc'
         unfold chainExists; rw [b6 _ rfl (by simp) (by simp)]; exact inv.plcy p hp
-      obtain ⟨t2, hr2, n2, g2⟩ := podBatch_spec k1 (.pod q.hash) (podChain ps q) rfl b3 hrules
+      obtain ⟨t2, hr2, n2, g2⟩ := podBatch_spec k1 (.pod q.hash) (podChain ps q) rfl b3 hrules (podChain_ports ps q)
       unfold syncPodChain
       rw [hr2]
       simp only
